@@ -98,3 +98,7 @@ Definition mismatches_C20 := mism true pi_none.
 (* C20 on an observed scan: no panic; a scan that returned nil processed every configured group *)
 Definition propfail_C20 (cs : list scan_case) : list nat :=
   indices_where (fun c => (sc_out c =? 4) || ((sc_out c =? 0) && negb (Nat.eqb (length (sc_obs c)) (length (s_groups (sc_snap c)))))) cs 0.
+
+(* cases whose views are not well-formed (duplicate node names): expected none; reported as a generator error *)
+Definition illformed_scan (cs : list scan_case) : list nat :=
+  indices_where (fun c => negb (wf_snapshot (sc_snap c))) cs 0.
